@@ -280,6 +280,10 @@ def main(prop, modname, tier, nproc=None):
     seed = int(os.environ.get("VERIF_SEED", "0") or 0)
     mod = importlib.import_module(modname)
     cases = mod.cases(tier)
+    only = os.environ.get("VERIF_ONLY")          # development aid: run a subset of cases; such a run never writes evidence
+    if only:
+        import re as _re
+        cases = [c for c in cases if _re.search(only, str(c["name"]))]
     nproc = nproc or min(int(os.environ.get("VERIF_PROCS", "16")), max(1, len(cases)))
     ctx = multiprocessing.get_context("fork")
     results = []
@@ -451,7 +455,10 @@ def main(prop, modname, tier, nproc=None):
             jsonschema.validate(ev, json.load(open(sch)))
     except ImportError:
         pass
-    json.dump(ev, open(os.path.join(VERIF, "evidence", prop + ".json"), "w"), indent=1, sort_keys=True)
+    if only or os.environ.get("VERIF_NO_EVIDENCE"):
+        print("(development run: evidence not written)")
+    else:
+        json.dump(ev, open(os.path.join(VERIF, "evidence", prop + ".json"), "w"), indent=1, sort_keys=True)
     print("%s tier=%s cases=%d paths=%d decisions=%d queries=%d obligations=%d/%d witnesses_validated=%d wall=%.1fs" % (
         prop, tier, len(results), stats.paths, stats.decisions, stats.checks, ev["coverage"]["discharged"],
         ev["coverage"]["obligations"], validated, time.time() - t0))
